@@ -278,6 +278,34 @@ def precedence(rep, tier, seed):
                 ok, obs = False, f"with whitespace/comments: {type(ex).__name__}"
         if not ok:
             fails.append({"text": text, "observed": obs})
+    # layout that IS significant: the end of a // comment, blanks and line feeds inside literals.  Texts that agree after
+    # layout normalisation are parsed one after the other by the same parser; each tree must be the tree of ITS text:
+    # every token is the slice of the text at the token's own position, and the structure is that of the text with its
+    # comments removed (comment = from // outside a literal to the end of the line).
+    layout_sequences = [
+        (["x // c + y", "x // c\n+ y"], ["x", "x + y"]),
+        (["x // c\n+ y", "x // c + y"], ["x + y", "x"]),
+        (["x\n// c ? y : z\n? y : z", "x // c ? y : z ? y : z"], ["x ? y : z", "x"]),
+        (['s + "a b" * 2', 's + "a  b" * 2', 's + "a\tb" * 2'], None),
+        (['"""a\nb""" + s', '"""a b""" + s', '"""a\n\nb""" + s'], None),
+        (["x+y", "x + y", "x\t+\ny", "x  +  y // done"], ["x + y"] * 4),
+        (['f(" // not a comment") + 1', 'f(" //  not a comment") + 1'], None),
+    ]
+    for texts, stripped in layout_sequences:
+        for k, text in enumerate(texts):
+            n += 1
+            try:
+                t = p.parse(text)
+                bad = [str(tok) for tok in t.scan_values(lambda v: isinstance(v, lark.Token))
+                       if tok.start_pos is None or text[tok.start_pos:tok.end_pos] != str(tok)]
+                ok, obs = not bad, (f"token(s) {bad[:3]} are not the text at their own position" if bad else None)
+                if ok and stripped is not None:
+                    ok = strip(t) == strip(p.parse(stripped[k]))
+                    obs = None if ok else f"tree differs from the tree of {stripped[k]!r} (the text without its comments)"
+            except Exception as ex:
+                ok, obs = False, f"{type(ex).__name__}: {str(ex)[:100]}"
+            if not ok:
+                fails.append({"text": text, "after": texts[:k], "observed": obs})
     rep.bounded.append({"function": "CELParser.parse vs the fully parenthesised form (reference precedence-climbing parser)", "cases": n,
                         "distinct_nontrivial": n, "failures": len(fails),
                         "bound": "all ordered pairs of the 14 binary operators, triples (all in thorough, 400 sampled in quick), unary/member/index/call/ternary contexts per operator; whitespace and comment variants"})
